@@ -95,6 +95,18 @@ def run_step(W, cfg):
     want = table[(cfg['w'], ptype)]
     before = (list(w.data), w.ptype, w.shape, [f.data for f in w.data])
     pb = (plane.amplitude, plane.opd, plane.mask, list(plane.tilt))
+
+    def same(a, b):
+        if a is b:
+            return True
+        if isinstance(a, (tuple, list)) and isinstance(b, (tuple, list)) and len(a) == len(b):
+            return all(same(x, y) for x, y in zip(a, b))
+        return (not W.sym) and type(a) is type(b) and a == b
+    wattrs = ('wavelength', 'focal_length', 'pixelscale', 'ptype', 'shape')
+    pattrs = ('focal_length', 'pixelscale', 'ptype', 'shape', 'x', 'y', 'trace', 'dispersion')
+    wb = {k: getattr(w, k) for k in wattrs}
+    pb2 = {k: getattr(plane, k) for k in pattrs if hasattr(plane, k)}
+    fb = [(f.offset, f.pixelscale, list(f.tilt)) for f in w.data]
     try:
         out = w * plane
     except TypeError:
@@ -102,6 +114,12 @@ def run_step(W, cfg):
         W.ob_true('refusal leaves the wavefront unchanged', list(w.data) == before[0] and w.ptype == before[1] and w.shape == before[2]
                   and all(a is b for a, b in zip([f.data for f in w.data], before[3])))
         W.ob_true('refusal leaves the plane unchanged', plane.amplitude is pb[0] and plane.opd is pb[1] and plane.mask is pb[2] and list(plane.tilt) == pb[3])
+        for k in wattrs:
+            W.ob_true(f'refusal leaves the wavefront\'s {k} unchanged', same(getattr(w, k), wb[k]))
+        for k in pb2:
+            W.ob_true(f'refusal leaves the plane\'s {k} unchanged', same(getattr(plane, k), pb2[k]))
+        W.ob_true('refusal leaves the wavefront\'s fields (offset, pixel scale, tilt list) unchanged',
+                  all(same(f.offset, b[0]) and same(f.pixelscale, b[1]) and list(f.tilt) == b[2] for f, b in zip(w.data, fb)))
         return
     W.ob_true('allowed only where the table gives a result', want is not None)
     W.ob_true('result ptype = documented', str(out.ptype) == want)
@@ -115,10 +133,19 @@ def cfg_prog(tier, seed):
     for w in PT[:3]:
         for pre in itertools.product(ops, repeat=L - 1):
             out.append({'w': w, 'pre': list(pre)})
+            if any(o in pre for o in ('ptype:tilt', 'ptype:transform', 'ptype:none', 'Tilt', 'DispersiveTilt', 'Grism', 'Plane', 'LensletArray')) \
+                    and any(o.startswith('propagate') for o in pre):
+                # planes whose result type depends on the wavefront, met again after a propagation: the same object is used both times
+                out.append({'w': w, 'pre': list(pre), 'reuse': True})
     return out, len(out), True
 
 
-def _apply(W, lt, w, op, tag):
+def _apply(W, lt, w, op, tag, pool=None):
+    if pool is not None and not op.startswith('propagate'):
+        # one plane object per operation name and program: the same object meets wavefronts of different types along the way
+        if op not in pool:
+            pool[op] = _mk(W, lt, op, 'p' + str(len(pool)), zero_tilt=True, lam=w.wavelength)
+        return w * pool[op]
     if op == 'propagate_dft':
         return lt.propagate_dft(w, pixelscale=(W.real('ur', pos=True), W.real('uc', pos=True)), shape=(2, 2), oversample=1)
     if op == 'propagate_fft':
@@ -147,10 +174,11 @@ def run_prog(W, cfg):
         state = cfg['w']
         name = cfg['w'] + ' ; ' + ' ; '.join(prog)
         ok = True
+        pool = {} if cfg.get('reuse') else None
         for k, op in enumerate(prog):
             nxt = _spec_step(state, op, table, classes)
             try:
-                w2 = _apply(W, lt, w, op, k)
+                w2 = _apply(W, lt, w, op, k, pool)
             except TypeError:
                 if nxt is not None:
                     W.ob_fail(f'TypeError where the documentation allows the step at {op}: {name} @ {k}')
